@@ -38,7 +38,7 @@ def _finite_series(name, s, allow_nan_mask=None):
 def run_backtest(bt, spec):
     interp.seed_rngs(spec)
     b = interp.mk_backtest(bt, spec)
-    with contextlib.redirect_stdout(io.StringIO()):
+    with contextlib.redirect_stdout(io.StringIO()), contextlib.redirect_stderr(io.StringIO()):
         b.run()
     return b
 
